@@ -53,6 +53,53 @@ type Check struct {
 	Total       *Stats
 	Gates       []string // sanity gate failures (infrastructure errors)
 	VerifDir    string
+	// sharded runs: a shard process explores its part and dumps Total; the parent merges the
+	// dumps (Merged = true) and then only evaluates gates and writes the evidence
+	ShardI, ShardN int
+	Merged         bool
+}
+
+// MergeRaw folds the totals of a shard process into c (keys are already scenario-prefixed).
+func (c *Check) MergeRaw(b *Stats) {
+	a := c.Total
+	a.Execs += b.Execs
+	a.Points += b.Points
+	a.Transitions += b.Transitions
+	a.States += b.States
+	a.Pruned += b.Pruned
+	for k, v := range b.Outcomes {
+		a.Outcomes[k] += v
+	}
+	for k, v := range b.Classes {
+		a.Classes[k] += v
+	}
+	for k, v := range b.Counters {
+		a.Counters[k] += v
+	}
+	a.Violations = append(a.Violations, b.Violations...)
+	a.ViolCount += b.ViolCount
+	for _, s := range b.Samples {
+		if len(a.Samples) < 12 {
+			a.Samples = append(a.Samples, s)
+		}
+	}
+	if !b.Exhaustive {
+		a.Exhaustive = false
+	}
+	a.CapsHit = append(a.CapsHit, b.CapsHit...)
+	if b.MaxDepth > a.MaxDepth {
+		a.MaxDepth = b.MaxDepth
+	}
+	if b.MaxDevs > a.MaxDevs {
+		a.MaxDevs = b.MaxDevs
+	}
+	a.NondetErrors = append(a.NondetErrors, b.NondetErrors...)
+	if b.Hung {
+		a.Hung = true
+	}
+}
+
+type xxunused struct {
 }
 
 func NewCheck(prop, tier, level string, seed int64, verifDir string) *Check {
